@@ -165,6 +165,11 @@ def seeds():
         'Ssim': seed_sim(),
         'Sprev': seed_prev(),
     }
+    # partially cleaned-up leftovers: only one of LOCAL_<name> / REMOTE_<name> remains next to <name>
+    for tag, drop in (('SprevL', 'REMOTE_a.png'), ('SprevR', 'LOCAL_a.png')):
+        v = cp(s['Sprev'])
+        del v['cells'][4]['attachments'][drop]
+        s[tag] = v
     for k, v in s.items():
         errs = validate_notebook(v)
         assert not errs, (k, errs)
@@ -459,6 +464,11 @@ def attachment_edits(att):
         a = cp(att); a[k] = dict(a[k]); a[k]['application/json'] = 2 if att[k]['application/json'] != 2 else 3; out.append(('json-scalar', a))
     else:
         a = cp(att); a[k] = dict(a[k]); a[k]['application/json'] = 1; out.append(('json-add-scalar', a))
+    # the same edits for every other attachment name (LOCAL_/REMOTE_ leftovers of an earlier merge live next to the original)
+    for other in names[1:3]:
+        a = cp(att); del a[other]; out.append(('remove:%s' % other, a))
+        a = cp(att); a[other] = {'image/png': PNG2 if att[other].get('image/png') != PNG2 else PNG1}; out.append(('replace:%s:2' % other, a))
+        a = cp(att); a[other] = {'image/png': PNG3 if att[other].get('image/png') != PNG3 else PNG1}; out.append(('replace:%s:3' % other, a))
     res = []
     for lab, a in out:
         if a != att:
@@ -598,6 +608,9 @@ FOCUS = {
     'cellmix0': ('ec@0:7', 'out@0:oec1', 'src@0:tweak1', 'src@0:repl2:a', 'cell-delete@0', 'rerun@0', 'cellmeta@0:custom=a1', 'cell-retype@0:raw', 'id@0:renamed'),
     'cellmix2': ('cellmeta@2:collapsed-flip', 'src@2:tweak0', 'src@2:repl0:a', 'ec@2:7', 'cell-delete@2', 'cellmeta@2:tags+extra', 'out@2:append:Ostream',
                  'cell-move:1>2', 'cell-insert:C1@2'),
+    'prevatt': ('att@4:replace:a.png:2', 'att@4:replace:a.png:3', 'att@4:remove:a.png', 'att@4:replace:2', 'att@4:replace:3', 'att@4:remove', 'att@4:add:b1', 'att@4:add:b2',
+                'src@4:repl0:a'),
+    'upgrade': ('upgrade45', 'cell-insert:C3@3', 'cell-insert:M3@3', 'cell-insert:C1@3', 'cell-insert:C2@3', 'minor:3', 'src@0:tweak1', 'cell-delete@1', 'cell-retype@2:raw'),
     'prevmeta': ('nbmeta:conflicts-unset', 'nbmeta:conflicts-emptied', 'nbmeta:kspec-name', 'nbmeta:kspec-name:b', 'nbmeta:tags=new', 'nbmeta:tags=alt',
                  'cellmeta@0:conflicts-unset', 'cellmeta@0:conflicts-emptied', 'cellmeta@0:tags=new', 'cellmeta@0:tags=alt', 'cellmeta@0:custom=a1', 'cellmeta@0:custom=a2'),
     'attachments': ('att@1:add:b1', 'att@1:add:b2', 'att@1:replace:2', 'att@1:replace:3', 'att@1:rename', 'att@1:add-mime', 'src@1:repl1:a', 'src@1:repl1:b'),
